@@ -72,7 +72,7 @@ def c09(chk):
     chk.mc("MC_Codec", "MC_Codec_thorough.cfg" if thorough(chk) else "MC_Codec.cfg", workers=8, timeout=3000)
     trace = os.path.join(chk.wd, "hdr.ndjson")
     pmv(["drive", "hdr", "--seed", chk.seed, "--tier", t, "--out", trace])
-    chk.validate("Trace_Codec", trace, "hdr", timeout=3000, parallel=4)
+    chk.validate("Trace_Codec", trace, "hdr", timeout=3000, parallel=4, scope=lambda t: not str(t).startswith("X:"))
     ev = first_event(trace, lambda o: o["ev"] == "Hdr" and len(o["bytes"]) >= 127 and all(x["res"] == "ok" for x in o["obs"]))
     def c_field(o):
         o["obs"][0]["h"]["min_lat"] += 1
